@@ -31,13 +31,16 @@ def configs(ctx, b, selfops=False):
                     continue
                 cs.append((binary, "%s 1var K=%d cap=%s hash=%d" % (title, k1, cap or 500, h),
                            dict(keys=k1, capacity=cap, hash=h, onevar=True, **so)))
+        # the two variables differ in capacity: swap, assignment and set operations move content between tables of different width
+        for cap, capB in ((1, 3), (3, 1), (2, 0)):
+            cs.append((binary, "%s 2vars K=3 cap=%s/%s hash=0" % (title, cap, capB or 500), dict(keys=3, capacity=cap, capacityB=capB, hash=0, **so)))
         if not quick:
             cs.append((binary, "%s 2vars K=4 cap=2 hash=0" % title, dict(keys=4, capacity=2, hash=0, _big=True, **so)))
     return cs
 
 RULE = ("BFS over histories of append / prepend / insert at every position / remove by key, iterator, front, back / clear / swap / "
         "copy-construct / assign / set append / set remove on two variables of the real HashMap, HashSet and PoolMap, for every "
-        "table capacity in {1,2,3,500} and hash mode in {identity, constant, mod 2}; de-duplicated on (ordered keys of A and B, "
+        "table capacity in {1,2,3,500} (both variables alike, and the pairs 1/3, 3/1, 2/500) and hash mode in {identity, constant, mod 2}; de-duplicated on (ordered keys of A and B, "
         "capacity, per-bucket chain order); after every transition both variables are compared with an insertion-ordered "
         "reference (iteration both ways, size, isEmpty, front/back, find/contains of every key, ==/!=, returned iterators/references)")
 
